@@ -6,7 +6,7 @@ cd "$(dirname "$0")/.."
 J=6
 if [ "$1" = "-j" ]; then J=$2; shift 2; fi
 OUT=${1:-/tmp/regress.out}
-declare -A PROP=( [revert-D1]=C03 [revert-D2]=C02 [revert-D3]=C04 [revert-D4]=C04 [revert-D5]=C04 [revert-D6]=C05 [revert-D7]=C11 [revert-D8]=C17 [revert-D9]=C16 )
+declare -A PROP=( [revert-D1]=C03 [revert-D2]=C02 [revert-D3]=C04 [revert-D4]=C04 [revert-D5]=C04 [revert-D6]=C05 [revert-D7]=C11 [revert-D8]=C17 [revert-D9]=C16 [revert-D10]=C16 )
 jobs=$(mktemp)
 for d in seeded/*/; do
   d=${d%/}; [ -f $d/patch.diff ] || continue
